@@ -896,6 +896,10 @@ impl Component for SysComp {
          every case with index 5 mod 16 is the lopsided-share scenario (hkarm at every tick, one uplink starved by a \
          tiny window, late / missing keepalive echoes, phases under the 100 kbit/s floor, a NAK-heavy loss phase, an \
          optional reload) in which weak / probation / back-off / loss-degraded verdicts are reached and stamped. \
+         Op hkarm ends with the stats publish of the arm: the REAL SharedStats::update + get() with the arm's own \
+         arguments; the serde_json::Value of the snapshot (every field of every entry, floats as bits) is part of \
+         the compared line, and the snapshot is checked against the RAW link / classifier / controller state \
+         (stats-config-not-current, stats-link-misreported, stats-verdict-for-other-link). \
          Thorough tier: cases up to 450 steps. Non-trivial: registration completed and at least one datagram was put \
          on the wire."
     }
@@ -1332,9 +1336,16 @@ impl SysComp {
             conn.loss_degraded = cc_snap.map(|s| s.loss_degraded).unwrap_or(false);
         }
         // (task B3) the stats publish of the arm: the REAL `SharedStats::update` + `get()`, same arguments
+        let stats_prev = w.shared_stats.get(); // (harness only: what a `get_stats` caller saw until now)
         w.shared_stats.update(&w.links, &w.cfg, Some(&classification), Some(&link_cc_snapshots));
         let stats_snap = w.shared_stats.get();
         verif_clock::set(None);
+        if stats_prev.total_links > 0 && (stats_prev.mode != stats_snap.mode || stats_prev.quality_enabled != stats_snap.quality_enabled) {
+            mon.count("hkarm-stats-config-change-reported");
+        }
+        if stats_prev.total_links > 0 && stats_prev.total_links != stats_snap.total_links {
+            mon.count("hkarm-stats-link-count-changed");
+        }
         let stats_out = stats_tail(w, now, &classification, &link_cc_snapshots, &stats_snap, mon);
         // ---- monitors, from the property texts, on the raw connection state after the loop
         mon.count("hkarm");
